@@ -17,7 +17,7 @@ TECHNIQUE = "Lean 4 proof (syntax independence of lossy on the model level is st
 LEVEL_TEXT = ("Proved in Lean: the oracle and tables (as C01/C05) and monotonicity of roundNE, which is what makes a neighbour bound meaningful. "
               "The 1-ulp accuracy of the moderate paths is NOT proved; it is checked against the oracle on near-halfway worst cases for every radix, "
               "together with identical acceptance/count/errors between lossy and exact parsing. Partial proof, stated as such.")
-LEVEL_NOTE = "Trusted: Lean kernel; rustc; differential harness; generators. Power-of-two radices: proved on the Lean model of binary() (Props/C19.lean lossy_pow2_exact / lossy_pow2_agrees / lossy_pow2_bracket_partial: the lossy answer is roundNE of the truncated mantissa, equals the exact answer whenever that decides, and never exceeds the correctly rounded value); the <= 1 ulp statement lossy_pow2_neighbour is kept as a Prop. Decimal / generic radices: measured only."
+LEVEL_NOTE = "Trusted: Lean kernel; rustc; differential harness; generators. Power-of-two radices: proved on the Lean model of binary() (Props/C19.lean lossy_pow2_exact / lossy_pow2_agrees / lossy_pow2_bracket_partial: the lossy answer is roundNE of the truncated mantissa, equals the exact answer whenever that decides) and lossy_pow2_neighbour (complete: for a truncated mantissa the lossy answer is the correctly rounded float or the pattern just below it). Decimal / generic radices: measured only."
 
 
 def feature_sets(tier):
